@@ -82,6 +82,16 @@ def rule_recheck(ctx, rep):
                         if o2.get("kind") == "call" and o2["term"].get("callee") == "core::iter::traits::iterator::Iterator::next":
                             slot_writes += 1
                             continue
+                if o.get("kind") == "place":
+                    # `Some(item)` / `Some((i, item))` pattern of a `next()` result (loop ends on None; the count check is C06 R-ITERLOOP)
+                    from .. import symx as _sx
+
+                    ve = _sx.expr(F, B, val)
+                    hits = []
+                    _find_next(ve, hits)
+                    if hits:
+                        slot_writes += 1
+                        continue
                 ok = False
                 rep.bad("R-RECHECK", key + "/slot-write", "a slot is written with a value that does not come from a checked `next()` (panicking None arm): an over-reporting iterator would leave the slot uninitialised or filled with garbage", F.loc(b, t["span"]), tag)
             if slot_writes == 0:
@@ -197,6 +207,16 @@ def rule_guard(ctx, rep):
                 else:
                     rep.bad("R-GUARD", key + "/guard-drop", "the pointer written back into the ThinArc is not the transient Arc's pointer", F.loc(gb), tag)
     rep.floor("R-GUARD", 2, "guard dropped on both exits; guard destructor retargets")
+
+
+def _find_next(e, out):
+    if not isinstance(e, tuple):
+        return
+    if e and e[0] == "call" and e[2] == "next":
+        out.append(e)
+    for x in e:
+        if isinstance(x, tuple):
+            _find_next(x, out)
 
 
 def _guard_type(F, adt_path):
@@ -354,6 +374,9 @@ def run(ctx, rep):
     rep.floor("R-UNW", 60, "API bodies with at least one unwinding path")
     rule_make_after_user(ctx, rep)
     rule_recheck(ctx, rep)
+    from . import c06
+
+    c06.rule_iterloop(ctx, rep)  # lying iterators: the fill loop stores every item it takes, or panics
     rule_guard(ctx, rep)
     rule_null(ctx, rep)
     # fail closed on model gaps
